@@ -518,6 +518,9 @@ def structured_cases():
     yield "budget", real, [("Q", 1), ("T", 2999), ("X",), ("T", 1), ("X",), ("T", 2999), ("X",), R(0, 9, pa=(0,)), ("T", 5000), ("X",)]
     # ack forms
     yield "acks", real, [("Q", 1), ("Q", 1), ("S", 1, 1), R(0, 5, acks=(1,)), R(0, 6, pa=(0, 2)), R(1, 7, acks=(0, 1, 2)), ("T", 3000), ("X",)]
+    # PacketAck whose tail carries further appended acks: ids only in the tail / only in the body / in both
+    yield "acks", real, [("Q", 1), ("Q", 1), ("Q", 1), R(0, 5, acks=(1,), pa=(0,)), ("T", 3000), ("X",), R(1, 6, acks=(2,), pa=(2, 9)), ("T", 3000), ("X",)]
+    yield "acks", real, [("Q", 1), R(0, 5, acks=(0,), pa=(4,)), ("T", 3000), ("X",)]
     # eviction with the real, unpatched deque(maxlen=1000)
     ev = [R(1, i) for i in range(1, 1002)] + [R(1, 2), R(1, 1), R(1, 1), R(1, 3)]
     yield "window1000", real, ev
@@ -533,6 +536,8 @@ ARRIVAL_ALPHABET = [R(1, 1), R(1, 2), R(1, 3), R(0, 1)]
 MIXED_ALPHABET = [
     ("Q", 1), ("S", 1, 0), R(0, 5, acks=(0,)), R(0, 5, pa=(1,)), R(0, 5, pa=(0, 1)), R(1, 1, acks=(1,)), R(1, 1),
     ("X",), ("T", 3000), ("T", 1500), ("D",),
+    # a PacketAck datagram that ALSO carries appended acks: both lists count (body-only id, tail-only id)
+    R(0, 5, acks=(0,), pa=(1,)), R(1, 2, acks=(1,), pa=(7,)),
 ]
 
 
@@ -562,7 +567,8 @@ def random_case(rng):
             ev.append(R(rel, rng.randrange(1, ids + 1), acks=acks))
         elif r < 0.40:
             pa = tuple(rng.randrange(0, max(1, sent + 1)) for _ in range(rng.choice((1, 1, 2, 3))))
-            ev.append(R(1 if rng.random() < 0.2 else 0, rng.randrange(1, ids + 1), acks=(), pa=pa))
+            tail = tuple(rng.randrange(0, max(1, sent + 1)) for _ in range(rng.choice((0, 0, 1, 2))))
+            ev.append(R(1 if rng.random() < 0.2 else 0, rng.randrange(1, ids + 1), acks=tail, pa=pa))
         elif r < 0.45:
             ev.append(R(rng.randrange(2), rng.randrange(1, ids + 1), acks=(rng.randrange(0, sent + 1),),
                         known=rng.randrange(2), banned=rng.randrange(2)))
@@ -608,7 +614,7 @@ def correspond(ctx):
         suite="client circuit: real HippoClientProtocol/Session/Region/Circuit vs extracted model, step by step",
         rule="corpus + structured cases (retry budget and 3.0 s cadence on the real configuration, both ack forms, eviction of the real "
              "unpatched deque(maxlen=1000) after 1001 distinct ids, disconnect, rejected datagrams) + EVERY sequence up to length %d over "
-             "4 arrivals {reliable id 1,2,3, unreliable} and EVERY sequence up to length %d over an 11-letter alphabet of sends, acks in "
+             "4 arrivals {reliable id 1,2,3, unreliable} and EVERY sequence up to length %d over a 13-letter alphabet (incl. PacketAck datagrams that also carry appended acks) of sends, acks in "
              "both forms, duplicates, ticks, resend calls and disconnect (window 2, budget 2 via patched deque/ReliableResendInfo) + seeded "
              "random sequences of 5-60 events (25%% on the real configuration). After every event the datagrams emitted (decoded by the "
              "real deserializer), subscriber invocations (3 subscribers at each of session and region level), completed futures and "
